@@ -25,6 +25,18 @@ class LoopSpec:
         self.inv, self.vars, self.shape, self.havoc, self.roles, self.lemmas = inv, vars or {}, shape, havoc, roles, lemmas
 
 
+def _inv_parts(spec, fx, E, st, i):
+    """The invariant's conjuncts; a conjunct labelled 'kinds' that is literally False means the invariant no longer finds the
+    locals it talks about (renamed, or now of another kind): the contract needs re-anchoring - the function is out of reach
+    (exit 2, bounded stand-in), it is not a violation."""
+    parts = spec.inv(E, st, i)
+    for label, g in parts:
+        if label == "kinds" and z3.is_false(z3.simplify(g)):
+            raise OutOfReach("loop invariant in %s no longer fits the code (a local it names was renamed or changed kind): contract needs re-anchoring"
+                             % fx.qualname)
+    return parts
+
+
 def normalise_header(loop):
     """Header text with local names replaced by positional placeholders (alpha-renaming)."""
     txt = extract.loop_shape(loop)
@@ -98,7 +110,7 @@ def _for_value(E, s, it, st, fx):
     lid = _loop_id(E, fx, k)
     # inv-init
     E.inv_mode = "prove"
-    for label, g in spec.inv(E, st, z3.IntVal(0)):
+    for label, g in _inv_parts(spec, fx, E, st, z3.IntVal(0)):
         E.oblige("%s/inv-init/%s%s" % (lid, label, E.case_suffix), st, g, kind="inv-init", func=fx.qualname, line=s.lineno)
     outs = []
     for h in _havoc(E, spec, s, st, fx, with_target=True):
@@ -106,7 +118,7 @@ def _for_value(E, s, it, st, fx):
         h.assume(i >= 0, i <= n)
         h.ghost["loop_index"] = i
         E.inv_mode = "assume"
-        for _label, g in spec.inv(E, h, i):
+        for _label, g in _inv_parts(spec, fx, E, h, i):
             h.assume(g)
         E.inv_mode = "prove"
         if not E.feasible(h):
@@ -138,7 +150,7 @@ def _for_value(E, s, it, st, fx):
                 continue
             for o in E.exec_block(s.body, a.st, fx):
                 if o.kind in ("normal", "continue"):
-                    for label, g in spec.inv(E, o.st, i + 1):
+                    for label, g in _inv_parts(spec, fx, E, o.st, i + 1):
                         E.oblige("%s/inv-pres/%s%s" % (lid, label, E.case_suffix), o.st, g, kind="inv-pres",
                                  func=fx.qualname, line=s.lineno)
                 elif o.kind == "break":
@@ -255,12 +267,12 @@ def exec_while(E, s, st, fx):
     _check_shape(E, spec, s, fx, k)
     lid = _loop_id(E, fx, k)
     E.inv_mode = "prove"
-    for label, g in spec.inv(E, st, None):
+    for label, g in _inv_parts(spec, fx, E, st, None):
         E.oblige("%s/inv-init/%s%s" % (lid, label, E.case_suffix), st, g, kind="inv-init", func=fx.qualname, line=s.lineno)
     outs = []
     for h in _havoc(E, spec, s, st, fx, with_target=False):
         E.inv_mode = "assume"
-        for _label, g in spec.inv(E, h, None):
+        for _label, g in _inv_parts(spec, fx, E, h, None):
             h.assume(g)
         E.inv_mode = "prove"
         if not E.feasible(h):
@@ -277,7 +289,7 @@ def exec_while(E, s, st, fx):
                 b.trace.append("loop%d body" % k)
                 for o in E.exec_block(s.body, b, fx):
                     if o.kind in ("normal", "continue"):
-                        for label, g in spec.inv(E, o.st, None):
+                        for label, g in _inv_parts(spec, fx, E, o.st, None):
                             E.oblige("%s/inv-pres/%s%s" % (lid, label, E.case_suffix), o.st, g, kind="inv-pres",
                                      func=fx.qualname, line=s.lineno)
                     elif o.kind == "break":
